@@ -16,7 +16,7 @@ from engine import jx2smt as J
 from engine import sym as S
 from engine import vexpr as X
 from engine.jx2smt import SV, Ctx
-from engine.vexpr import V, vs, all_, any_, where, count
+from engine.vexpr import V, vs, all_, any_, where, count, pick
 from envs import base, configs
 
 LEVEL_TEXT = ("Symbolic execution of the real generators with nondeterministic random stubs: post-conditions proved for every key/draw at the listed sizes "
@@ -334,5 +334,226 @@ def jobs(tier, seed):
         js.append(("flatpack/3x2", "checks.C10", "run_flatpack", {"rb": 3, "cb": 2}))
     for n in KEY_DEP:
         js.append((f"key-dependence/{n}", "checks.C10", "run_key_dependence", {"name": n}))
+    for gs, na in ([(3, 2)] if tier == "quick" else [(3, 2), (4, 2), (4, 3)]):
+        js.append((f"connector-walk/{gs}x{na}", "checks.C10", "run_connector_walk", {"gs": gs, "na": na}))
     js.append(("shipped-data", "checks.C10", "run_concrete", {}))
     return js
+
+
+# ------------------------------------------------------------------------------------------------ Connector RandomWalkGenerator: solvable boards
+def _conn_owner(g, i):
+    """cell value g belongs to wire i (PATH/POSITION/TARGET of agent i are 1+3i, 2+3i, 3+3i)"""
+    return (g >= 1 + 3 * i) & (g <= 3 + 3 * i)
+
+
+def _conn_reach(member, root_r, root_c, n):
+    """least fixed point (n*n relaxation rounds, inside the formula): cells of `member` 4-connected to the root cell within `member`"""
+    reach = np.empty((n, n), dtype=object)
+    for r in range(n):
+        for c in range(n):
+            reach[r, c] = member[r, c] & (root_r == r) & (root_c == c)
+    for _ in range(n * n - 1):
+        new = np.empty((n, n), dtype=object)
+        for r in range(n):
+            for c in range(n):
+                nb = [reach[rr, cc] for rr, cc in ((r - 1, c), (r + 1, c), (r, c - 1), (r, c + 1)) if 0 <= rr < n and 0 <= cc < n]
+                new[r, c] = reach[r, c] | (member[r, c] & any_(nb))
+        reach = new
+    return reach
+
+
+def _conn_J(g, start, pos, n, A_, connectivity=True):
+    """loop invariant of the random walk: every cell holds 0 or a wire value; wire i has exactly one POSITION cell (= agents.position[i])
+    and exactly one TARGET-valued cell (= agents.start[i], the generator marks the walk's origin with the TARGET value); the cells of wire i
+    form a 4-connected set (hence contain a path from its origin to its head)."""
+    ob = [("cells hold 0 or a wire value", all_([(g[r, c] >= 0) & (g[r, c] <= 3 * A_) for r in range(n) for c in range(n)]))]
+    for i in range(A_):
+        sr, sc, pr, pc = start[i, 0], start[i, 1], pos[i, 0], pos[i, 1]
+        ob.append((f"wire {i}: origin and head inside the grid", (sr >= 0) & (sr < n) & (sc >= 0) & (sc < n) & (pr >= 0) & (pr < n) & (pc >= 0) & (pc < n)))
+        ob.append((f"wire {i}: POSITION value exactly at agents.position", all_([(g[r, c] == 2 + 3 * i).iff((pr == r) & (pc == c)) for r in range(n) for c in range(n)])))
+        ob.append((f"wire {i}: TARGET value exactly at agents.start (origin of the walk)", all_([(g[r, c] == 3 + 3 * i).iff((sr == r) & (sc == c)) for r in range(n) for c in range(n)])))
+        if connectivity:
+            member = np.empty((n, n), dtype=object)
+            for r in range(n):
+                for c in range(n):
+                    member[r, c] = _conn_owner(g[r, c], i)
+            reach = _conn_reach(member, sr, sc, n)
+            ob.append((f"wire {i}: its cells are 4-connected to the origin", all_([member[r, c].implies(reach[r, c]) for r in range(n) for c in range(n)])))
+    return ob
+
+
+def run_connector_walk(R, gs, na):
+    """Connector RandomWalkGenerator boards are solvable for EVERY key (loop-invariant argument on the real generator code):
+      base   J holds after the real _initialize_agents (symbolic key, arbitrary draws);
+      step   J(grid, agents) => J after one real _step (all agents move at once, collisions corrected), stated as frame + local
+             delta (each wire keeps its cells and gains at most the new head cell, adjacent to the old head, taken from EMPTY cells);
+             the graph lemma 'a connected set plus a neighbour of one of its members is connected' is discharged by the solver for
+             this grid size, which closes the induction on connectivity;
+      use    the real __call__ with its while loop summarised by an arbitrary J-state at which the loop condition is false:
+             start/target/position/grid of the returned State are as documented and the wires of the J-state are pairwise disjoint
+             connected cell sets joining each start to its target through cells that are free (or the agent's own) on the returned
+             board = a complete solution.  Partial correctness (termination of the walk is not claimed)."""
+    from jumanji.environments.routing.connector.types import Agent
+    env = configs.make(f"ConnectorRW@{gs}x{na}")
+    gen = env._generator
+    n, A_ = gs, na
+    R.bound(grid=f"{n}x{n}", agents=A_, loop="summarised by invariant (base + step + use), any number of iterations", draws="arbitrary within jax.random contracts")
+
+    def sym_loop_state(ctx, tag):
+        grid = ctx.fresh_arr(tag + ".grid", (n, n), np.int32, 0, 3 * A_)
+        start = ctx.fresh_arr(tag + ".start", (A_, 2), np.int32, 0, n - 1)
+        pos = ctx.fresh_arr(tag + ".position", (A_, 2), np.int32, 0, n - 1)
+        agents = Agent(id=SV(np.arange(A_, dtype=np.int32), np.int32), start=start, target=SV(np.full((A_, 2), -1, np.int32), np.int32), position=pos)
+        return grid, agents
+
+    # ---------------- step
+    ctx = Ctx()
+    grid, agents = sym_loop_state(ctx, "W")
+    key = ctx.fresh_arr("W.key", (2,), np.uint32)
+    J0 = _conn_J(vs(grid), vs(agents.start), vs(agents.position), n, A_, connectivity=False)
+    k2, grid2, agents2 = S.call(ctx, gen._step, (key, grid, agents), R=R, name="RandomWalkGenerator._step")
+    R.nvars += S.nvars(grid) + S.nvars(agents.start) + S.nvars(agents.position) + 2
+    A = [v.z() for _, v in J0 if not (v.conc and bool(v))] + list(ctx.assumptions)
+    C.unwinding(R, ctx, A)
+    R.reach("walk state (J)", A)
+    g0, g1 = vs(grid), vs(grid2)
+    s0, p0, s1, p1 = vs(agents.start), vs(agents.position), vs(agents2.start), vs(agents2.position)
+
+    def step_pred(names):
+        def rp(model):
+            g_np, st_np, po_np = (jnp.asarray(S.model_sv(model, x)) for x in (grid, agents.start, agents.position))
+            ag = Agent(id=jnp.arange(A_, dtype=jnp.int32), start=st_np, target=jnp.full((A_, 2), -1, jnp.int32), position=po_np)
+            f = jax.jit(gen._step)
+            for i in range(128):
+                _, gg, aa = f((jax.random.PRNGKey(i), g_np, ag))
+                vals = dict(step_obl(vs(S.conc_tree(np.asarray(g_np))), vs(S.conc_tree(np.asarray(st_np))), vs(S.conc_tree(np.asarray(po_np))),
+                                     vs(S.conc_tree(np.asarray(gg))), vs(S.conc_tree(np.asarray(aa.start))), vs(S.conc_tree(np.asarray(aa.position)))))
+                if not bool(vals[names]):
+                    return True, {"key": f"PRNGKey({i})", "grid": np.asarray(g_np).tolist(), "start": np.asarray(st_np).tolist(), "position": np.asarray(po_np).tolist(),
+                                  "grid_after": np.asarray(gg).tolist(), "position_after": np.asarray(aa.position).tolist(), "obligation": names}
+            return False, {"note": "no real key in 0..127 reproduces the model"}
+        return rp
+
+    def step_obl(g0, s0, p0, g1, s1, p1):
+        ob = [("step: J(S') " + nm, v) for nm, v in _conn_J(g1, s1, p1, n, A_, connectivity=False)]
+        for i in range(A_):
+            moved = ~((p1[i, 0] == p0[i, 0]) & (p1[i, 1] == p0[i, 1]))
+            dr, dc = p1[i, 0] - p0[i, 0], p1[i, 1] - p0[i, 1]
+            adj = ((dr == 1) | (dr == -1)) & (dc == 0) | ((dc == 1) | (dc == -1)) & (dr == 0)
+            ob.append((f"step: wire {i} origin unchanged", (s1[i, 0] == s0[i, 0]) & (s1[i, 1] == s0[i, 1])))
+            ob.append((f"step: wire {i} head stays or moves to a 4-neighbour", moved.implies(adj)))
+            keep, gain = [], []
+            for r in range(n):
+                for c in range(n):
+                    was, now = _conn_owner(g0[r, c], i), _conn_owner(g1[r, c], i)
+                    keep.append(was.implies(now))
+                    gain.append((now & ~was).implies((g0[r, c] == 0) & (p1[i, 0] == r) & (p1[i, 1] == c)))
+            ob.append((f"step: wire {i} keeps all its cells (frame)", all_(keep)))
+            ob.append((f"step: wire {i} gains at most its new head cell, taken from an EMPTY cell (local delta)", all_(gain)))
+        return ob
+    for nm, v in step_obl(g0, s0, p0, g1, s1, p1):
+        R.prove(nm, A, v.term() if not v.conc else bool(v), replay=step_pred(nm))
+
+    # ---------------- graph lemma closing the induction on connectivity (pure SMT, this grid size)
+    lctx = Ctx()
+    member = vs(lctx.fresh_arr("L.member", (n, n), np.bool_))
+    rr, rc = vs(lctx.fresh_arr("L.root", (2,), np.int32, 0, n - 1))
+    pr, pc = vs(lctx.fresh_arr("L.p", (2,), np.int32, 0, n - 1))
+    qr, qc = vs(lctx.fresh_arr("L.q", (2,), np.int32, 0, n - 1))
+    reach = _conn_reach(member, rr, rc, n)
+    connected = all_([member[r, c].implies(reach[r, c]) for r in range(n) for c in range(n)])
+    p_in = pick(member, pr, pc, default=X.FALSE)
+    adjq = (((qr - pr == 1) | (qr - pr == -1)) & (qc == pc)) | (((qc - pc == 1) | (qc - pc == -1)) & (qr == pr))
+    member2 = np.empty((n, n), dtype=object)
+    for r in range(n):
+        for c in range(n):
+            member2[r, c] = member[r, c] | ((qr == r) & (qc == c))
+    reach2 = _conn_reach(member2, rr, rc, n)
+    connected2 = all_([member2[r, c].implies(reach2[r, c]) for r in range(n) for c in range(n)])
+    LA = list(lctx.assumptions) + [connected.z(), p_in.z(), adjq.z(), pick(member, rr, rc, default=X.FALSE).z()]
+    R.reach("graph lemma premises", LA)
+    R.prove(f"graph lemma ({n}x{n}): connected set + a 4-neighbour of one of its members is connected (closes the induction: frame + delta => connectivity)",
+            LA, connected2.term(), replay=None, internal=True)
+
+    # ---------------- base: after the real _initialize_agents
+    bctx = Ctx()
+    bkey = bctx.fresh_arr("B.key", (2,), np.uint32)
+    bgrid, bagents = S.call(bctx, lambda k: gen._initialize_agents(k, jnp.zeros((n, n), jnp.int32)), bkey, R=R, name="RandomWalkGenerator._initialize_agents")
+    BA = list(bctx.assumptions)
+    C.unwinding(R, bctx, BA)
+    R.reach("base", BA)
+
+    def base_rp(nm):
+        def pred(out):
+            gg, aa = out
+            vals = dict(("base: " + k, v) for k, v in _conn_J(vs(S.conc_tree(np.asarray(gg))), vs(S.conc_tree(np.asarray(aa.start))), vs(S.conc_tree(np.asarray(aa.position))), n, A_))
+            return bool(vals[nm]), {"grid": np.asarray(gg).tolist(), "start": np.asarray(aa.start).tolist(), "position": np.asarray(aa.position).tolist(), "obligation": nm}
+        return C.reset_replayer(lambda k: gen._initialize_agents(k, jnp.zeros((n, n), jnp.int32)), bctx, bkey, pred, 256)
+    for nm, v in _conn_J(vs(bgrid), vs(bagents.start), vs(bagents.position), n, A_):
+        R.prove("base: " + nm, BA, v.term() if not v.conc else bool(v), replay=base_rp("base: " + nm))
+
+    # ---------------- use: the real __call__ with the walk loop summarised by J
+    uctx = Ctx()
+    exits = []
+
+    def summary(c_, eqn, carry):
+        # the generator's walk loop carries (key, grid, agents.id, agents.start, agents.target, agents.position) = 6 leaves
+        if len(carry) != 6 or tuple(carry[1].shape) != (n, n):
+            return None
+        g_, ag_ = sym_loop_state(c_, "X")
+        # carry = flattened (key, grid, agents); chex dataclasses flatten their fields in sorted order, so let jax order the leaves
+        out = jax.tree_util.tree_leaves((c_.fresh_arr("X.key", carry[0].shape, carry[0].dtype), g_, ag_), is_leaf=lambda x: isinstance(x, SV))
+        assert [tuple(o.shape) for o in out] == [tuple(x.shape) for x in carry], ([o.shape for o in out], [x.shape for x in carry])
+        exits.append((g_, ag_))
+        return out
+    uctx.while_summary = summary
+    ukey = uctx.fresh_arr("U.key", (2,), np.uint32)
+    st = S.call(uctx, gen, ukey, R=R, name="RandomWalkGenerator.__call__")
+    if len(exits) != 1:
+        R.harness_errors.append(f"{R.job}: expected exactly one summarised walk loop, found {len(exits)}")
+        return
+    xg, xa = exits[0]
+    JX = _conn_J(vs(xg), vs(xa.start), vs(xa.position), n, A_)
+    UA = list(uctx.assumptions) + [v.z() for _, v in JX if not (v.conc and bool(v))]
+    R.reach("loop exit state (J and not cond)", UA)
+    G, W = vs(st.grid), vs(xg)
+    fs, ft, fp = vs(st.agents.start), vs(st.agents.target), vs(st.agents.position)
+    use = [("use: step_count starts at 0", vs(st.step_count) == 0)]
+    for i in range(A_):
+        use.append((f"use: agent {i}: start = origin of its walk, target = head of its walk, position = start",
+                    all_([fs[i, k] == vs(xa.start)[i, k] for k in range(2)] + [ft[i, k] == vs(xa.position)[i, k] for k in range(2)] + [fp[i, k] == fs[i, k] for k in range(2)])))
+        use.append((f"use: agent {i}: start and target inside the grid and distinct", (fs[i, 0] >= 0) & (fs[i, 0] < n) & (fs[i, 1] >= 0) & (fs[i, 1] < n) & (ft[i, 0] >= 0) & (ft[i, 0] < n)
+                    & (ft[i, 1] >= 0) & (ft[i, 1] < n) & ~((fs[i, 0] == ft[i, 0]) & (fs[i, 1] == ft[i, 1]))))
+        for j in range(i):
+            use.append((f"use: agents {j},{i}: starts and targets on pairwise distinct cells",
+                        all_([~((a_[0] == b_[0]) & (a_[1] == b_[1])) for a_ in (fs[i], ft[i]) for b_ in (fs[j], ft[j])])))
+        member = np.empty((n, n), dtype=object)
+        for r in range(n):
+            for c in range(n):
+                member[r, c] = _conn_owner(W[r, c], i)
+        reach = _conn_reach(member, fs[i, 0], fs[i, 1], n)
+        use.append((f"use: agent {i}: SOLVABLE - its target is 4-connected to its start inside its own wire cells, which hold only 0 / its own POSITION / its own TARGET on the returned board "
+                    f"(wires of different agents are disjoint cell sets by construction)",
+                    pick(reach, ft[i, 0], ft[i, 1], default=X.FALSE)
+                    & all_([member[r, c].implies((G[r, c] == 0) | (G[r, c] == 2 + 3 * i) | (G[r, c] == 3 + 3 * i)) for r in range(n) for c in range(n)])))
+    use.append(("use: returned board holds exactly the heads (POSITION at start) and the targets, all other cells EMPTY",
+                all_([G[r, c] == X.sum_([where((fs[i, 0] == r) & (fs[i, 1] == c), 2 + 3 * i, 0) + where((ft[i, 0] == r) & (ft[i, 1] == c), 3 + 3 * i, 0) for i in range(A_)])
+                      for r in range(n) for c in range(n)])))
+
+    def use_rp(nm):
+        def pred(out):
+            s_ = out
+            g_, a_ = np.asarray(s_.grid), s_.agents
+            fs_, ft_, fp_ = np.asarray(a_.start), np.asarray(a_.target), np.asarray(a_.position)
+            ok = bool((fp_ == fs_).all()) and len({tuple(x) for x in np.concatenate([fs_, ft_]).tolist()}) == 2 * A_ and bool(((fs_ >= 0) & (fs_ < n) & (ft_ >= 0) & (ft_ < n)).all())
+            want = np.zeros((n, n), np.int32)
+            for i in range(A_):
+                want[tuple(fs_[i])] = 2 + 3 * i
+                want[tuple(ft_[i])] = 3 + 3 * i
+            ok = ok and np.array_equal(g_, want)
+            # solvability on the real board: disjoint paths exist iff ... (NP-hard in general); the replay only checks the cheap facts above
+            return ok, {"grid": g_.tolist(), "start": fs_.tolist(), "target": ft_.tolist(), "obligation": nm}
+        return C.reset_replayer(gen, uctx, ukey, pred, 256)
+    for nm, v in use:
+        R.prove(nm, UA, v.term() if not v.conc else bool(v), replay=use_rp(nm))
+    R.sample({"generator": "Connector RandomWalkGenerator", "grid": n, "agents": A_, "argument": "base + step(frame/delta + graph lemma) + use"})
